@@ -67,6 +67,8 @@ def precondition_holds(fn, args):
     kwargs = {k: api.from_jsonable(v) for k, v in args.items()}
     with condition_parser(DEFAULT_OPTIONS.analysis_kind) as parser:
         conditions = parser.get_fn_conditions(FunctionInfo.from_fn(fn))
+    if conditions is None:
+        return True
     for pre in conditions.pre:
         if pre.evaluate is None:
             continue
